@@ -75,8 +75,13 @@ def _derive(src, dst, keep_agents, gap=None):
         iso = (START + timedelta(seconds=step * DT)).isoformat(timespec="microseconds")
         cur = con.execute("SELECT julian_date FROM epochs WHERE timestampISO = ?", (iso,))
         jd = cur.fetchone()[0]
-        n = con.execute("DELETE FROM truth_ephemerides WHERE agent_id = ? AND julian_date = ?", (agent, jd)).rowcount
-        assert n == 1, (agent, step, n)
+        if agent == "all":
+            # the whole epoch is missing: no ephemeris row of ANY agent (related or not) at that epoch
+            n = con.execute("DELETE FROM truth_ephemerides WHERE julian_date = ?", (jd,)).rowcount
+            assert n == len(keep_agents), (agent, step, n)
+        else:
+            n = con.execute("DELETE FROM truth_ephemerides WHERE agent_id = ? AND julian_date = ?", (agent, jd)).rowcount
+            assert n == 1, (agent, step, n)
     con.commit()
     con.close()
 
@@ -153,6 +158,9 @@ def _variants(n):
             out.append((f"gap_{a}_{k}", base, (a, k)))
             out.append((f"gap_{a}_{k}_plus1", base + [EXTRAS[0]], (a, k)))
             out.append((f"gap_{a}_{k}_plus2", base + list(EXTRAS), (a, k)))
+    for k in range(1, n + 1):
+        out.append((f"gap_all_{k}", base, ("all", k)))
+        out.append((f"gap_all_{k}_plus1", base + [EXTRAS[0]], ("all", k)))
     return out
 
 
